@@ -2,6 +2,7 @@
 import XsdataModel.Proofs.C08Handler
 import XsdataModel.Proofs.C08Writer
 import XsdataModel.Proofs.C08Sources
+import XsdataModel.Proofs.C08LxmlText
 import XsdataModel.Proofs.C11Pipeline
 import XsdataModel.Backends.Serializers
 
@@ -131,6 +132,38 @@ example : nativeParseTree [] (.node [("p".toList, "urn:a".toList)] "{urn:a}r".to
     = [.registerNs (some "ns0".toList) "urn:a".toList,
        .start "{urn:a}r".toList [] [(some "ns0".toList, "urn:a".toList)],
        .end "{urn:a}r".toList none none] := rfl
+
+/-! ## handlers: the character data the lxml handler reads -/
+
+/-- **lxml_text_whole**: `get_text` returns the infoset's text of the element — all the character data
+in front of the first child element — for every content sequence, however many comments and
+processing instructions (adjacent ones included, with or without character data behind them) libxml2
+has split it by.  That is what the native handler (expat / ElementTree: no such nodes) passes. -/
+theorem lxml_text_whole (content : List Content) :
+    getText (view content).1 (view content).2 = leadData content :=
+  joinTails_view content
+
+/-- **lxml_tail_whole**: the same for `get_tail` and what follows a node among its siblings. -/
+theorem lxml_tail_whole (after : List Content) :
+    getTail (view after).1 (view after).2 = leadData after :=
+  joinTails_view after
+
+/-- `AB<?a?><?b?>CD`: two adjacent processing instructions, the first without a tail -/
+example : view [.chars "AB".toList, .misc, .misc, .chars "CD".toList]
+      = (some "AB".toList, [⟨false, none⟩, ⟨false, some "CD".toList⟩])
+    ∧ getText (some "AB".toList) [⟨false, none⟩, ⟨false, some "CD".toList⟩] = some "ABCD".toList := by decide
+
+/-- `<!--a--><?b?>x<e/>y`: no text node in front, nothing behind the element counts -/
+example : getText (view [.misc, .misc, .chars "x".toList, .elem, .chars "y".toList]).1
+    (view [.misc, .misc, .chars "x".toList, .elem, .chars "y".toList]).2 = some "x".toList := by decide
+
+/-- **lxml_reads_infoset**: for every document, with its comments and processing instructions kept as
+nodes (lxml tree / element sources) or the comments dropped by the tokeniser (`remove_comments=True`,
+byte sources), the `(text, tail)` pairs the lxml handler passes to `parser.end` are those of the
+infoset. -/
+theorem lxml_reads_infoset (doc : List CNode) :
+    readsList doc = specList doc ∧ readsList (dropComments doc) = specList (dropComments doc) :=
+  ⟨readsList_spec doc, readsList_spec (dropComments doc)⟩
 
 /-! ## writers: indentation -/
 
